@@ -267,6 +267,42 @@ func c07loopReturns(c *Ctx, sr *schedRoles) {
 
 func c07drainedMarks(c *Ctx, sr *schedRoles) {
 	r, p := c.R, sr.p
+	// E2b: (re-)registering a channel must not inherit the drained flag of the previous one
+	for _, fn := range p.Funcs() {
+		if rel, _ := p.Rel(fn); rel != "priority" {
+			continue
+		}
+		n := 0
+		for _, b := range fn.Blocks {
+			for _, in := range b.Instrs {
+				mu, ok := in.(*ssa.MapUpdate)
+				if !ok || !isInputTableType(mu.Map.Type()) {
+					continue
+				}
+				val := p.Sym(mu.Value)
+				if val.Op != "struct" {
+					continue
+				}
+				hasBase, setsChan, setsDrained := false, false, false
+				for _, k := range val.Keys {
+					switch k {
+					case "<base>":
+						hasBase = true
+					case "Channel":
+						setsChan = true
+					case "Drained":
+						setsDrained = true
+					}
+				}
+				if !setsChan {
+					continue
+				}
+				n++
+				r.Check(!hasBase || setsDrained, "E2", fmt.Sprintf("%s#register.%d", p.FnKey(fn), n), p.InstrPos(mu), "a newly registered channel starts not drained",
+					"a channel is registered by overwriting only the Channel of the existing entry: the Drained flag observed on the previous (closed) channel is inherited, the new channel is never read and the discipline terminates with its items undelivered")
+			}
+		}
+	}
 	// the marker must write table[key] with key = its parameter
 	mk := sr.markDrain
 	var keyParam *ssa.Parameter
